@@ -16,3 +16,6 @@ register_driver('daemon.Daemon.', 'daemon_send.py')
 register_driver('tx.', 'tx_parse.py')
 register_driver('util.pack_var', 'tx_parse.py')
 register_driver('harness.varint', 'tx_parse.py')
+register_driver('history.History.get_txnums.', 'history_native.py')
+register_driver('util.chunks.', 'history_native.py')
+register_driver('util.resolve_limit.', 'history_native.py')
